@@ -156,7 +156,12 @@ def lean_obligations(prop, thorough=False):
 
 # ---------------------------------------------------------------- Rust
 
+COV = os.environ.get("VERIF_COV")      # tools/coverage.sh: run the std stream through an instrumented harness
+
+
 def harness_bin(cfg):
+    if COV and cfg == "std":
+        return os.path.join(HARNESS, "target", "cov", "debug", "harness")
     return os.path.join(HARNESS, "target", cfg, "debug", "harness")
 
 
@@ -196,7 +201,10 @@ def cli_build():
 
 def run_stream(binary, args, ops, timeout=1800):
     data = ("\n".join(ops) + "\n").encode()
-    p = subprocess.run([binary] + args, input=data, stdout=subprocess.PIPE, stderr=subprocess.PIPE, env=ENV,
+    env = ENV
+    if COV:
+        env = dict(ENV, LLVM_PROFILE_FILE=os.path.join(WORK, "cov", "prof-%p-%m.profraw"))
+    p = subprocess.run([binary] + args, input=data, stdout=subprocess.PIPE, stderr=subprocess.PIPE, env=env,
                        timeout=timeout)
     lines = p.stdout.decode("utf-8", "replace").split("\n")
     if lines and lines[-1] == "":
